@@ -437,6 +437,7 @@ func main() {
 	}
 	if b, err := os.ReadFile(filepath.Join(bindir, "thrift-gen-vrec")); err == nil {
 		os.WriteFile(filepath.Join(bindir, "thrift-gen-vrec2"), b, 0o755)
+		os.WriteFile(filepath.Join(bindir, "thrift-gen-vrec3"), b, 0o755)
 	}
 	baseEnv := append(os.Environ(), "PATH="+bindir+":"+os.Getenv("PATH"))
 	cwd, _ := os.Getwd() // thriftgo records file names relative to the working directory: run it where the expectation is computed
@@ -461,8 +462,8 @@ func main() {
 		compress bool
 	}
 	gopts := []string{"", "naming_style=apache", "package_prefix=x/y,keep_unknown_fields", "gen_setter=true,json_enum_as_text"}
-	// "A|B": two plugins in one run, the first with options A, the second (vrec2) with options B
-	popts := []string{"", "a=1", "k1=v1,k2,k3=v3", "x=,y=a=b", "dup=1,dup=2", "first=1|second=2,flag", "|only=second"}
+	// "A|B|C": several plugins in one run (vrec, vrec2, vrec3) with options A, B, C
+	popts := []string{"", "a=1", "k1=v1,k2,k3=v3", "x=,y=a=b", "dup=1,dup=2", "first=1|second=2,flag", "|only=second", "a=1,b|", "x=1||z=9"}
 	var rcs []reqCase
 	for _, dp := range dps {
 		for _, rec := range []bool{false, true} {
@@ -501,7 +502,7 @@ func main() {
 				}
 				plugOpts := strings.Split(c.popts, "|")
 				for i, po := range plugOpts {
-					p := []string{"vrec", "vrec2"}[i]
+					p := []string{"vrec", "vrec2", "vrec3"}[i]
 					if po != "" {
 						p += ":" + po
 					}
@@ -530,7 +531,7 @@ func main() {
 				}
 				bad := false
 				for pi, po := range plugOpts {
-					prec := filepath.Join(filepath.Dir(rec), []string{"thrift-gen-vrec", "thrift-gen-vrec2"}[pi])
+					prec := filepath.Join(filepath.Dir(rec), []string{"thrift-gen-vrec", "thrift-gen-vrec2", "thrift-gen-vrec3"}[pi])
 					if b, err := os.ReadFile(prec + "/decode_error"); err == nil {
 						run.Violate(evid.Violation{Class: "plugin-cannot-decode:" + cls, What: fmt.Sprintf("the plugin's UnmarshalRequest fails: %s", b), Replay: rp})
 						bad = true
